@@ -464,7 +464,7 @@ PROPS["C19"] = {
         "runtime facts the model cannot exhibit (thread interleavings, compile-time hash seeds, SIMD lane arithmetic) are tied only by comparing real runs: rayon pools of 1/2/5/16 threads, separate processes, and in the thorough tier harness builds with two CONST_RANDOM_SEEDs, AVX2 and native (AVX-512) target features (partial, by nature)",
         "the builder's key pipeline (gate ordering, selectors, sigma map) is not modelled as a whole: order-independence lemmas + recomputation of the digest and of the preprocessed cap from its polynomials",
     ],
-    "level_text": "Lean 4: sorting with an injective key is independent of the input order (what makes gate order, selector indices and constant placement functions of the SET of gates/constants despite hash-container iteration); the circuit digest and the preprocessed Merkle cap (LDE on the coset, bit-reversed leaves) are recomputed by the model; implementation oracle: a fixed family of programs yields byte-identical verifier-only and common data, FFT outputs and Merkle caps under 4 thread counts and in separate processes (thorough: under different hash-map seeds and SIMD builds), and proofs made under one condition verify under every other",
+    "level_text": "Lean 4: sorting with an injective key is independent of the input order (what makes gate order, selector indices and constant placement functions of the SET of gates/constants despite hash-container iteration), and the copy-constraint neighbour table built by get_sigma_map is the same for every order in which the hash map yields the classes of the wire partition (neighbor_order_indep); the circuit digest and the preprocessed Merkle cap (LDE on the coset, bit-reversed leaves) are recomputed by the model; implementation oracle: a fixed family of programs yields byte-identical verifier-only and common data, FFT outputs and Merkle caps under 4 thread counts and in separate processes (thorough: under different hash-map seeds and SIMD builds), and proofs made under one condition verify under every other",
     "level_note": "Schedules, seeds and lanes are runtime facts: partial by nature; the theorem part covers the order-independence logic only.",
     "assumptions": [],
     "rule": "6 (thorough 14) fixed programs x 4 thread counts in-process + 2 further processes (+4 alternative builds in thorough) with cross-verification of proofs; digest/cap recomputation requests; distinct = distinct request lines",
